@@ -1247,15 +1247,33 @@ impl LsmTree {
     // TODO(rescrv):  Make this pub(crate).
     pub fn compaction_thread(&self) -> Result<(), SError> {
         loop {
+            #[cfg(rescrv_blue_verif)]
+            if crate::verif::budget_exhausted() {
+                return Ok(());
+            }
             let compaction = {
                 let mut mutex = self.compaction.lock().unwrap();
                 'inner: loop {
                     let version = self.take_snapshot();
                     let compaction = version.version.next_compaction();
                     if let Some(compaction) = compaction {
+                        #[cfg(rescrv_blue_verif)]
+                        crate::verif::record_chosen(crate::verif::ChosenCompaction {
+                            lower_level: compaction.core.lower_level,
+                            upper_level: compaction.core.upper_level,
+                            first_key: compaction.core.first_key.clone(),
+                            last_key: compaction.core.last_key.clone(),
+                            inputs: compaction.core.inputs.iter().map(|x| x.digest()).collect(),
+                        });
+                        #[cfg(rescrv_blue_verif)]
+                        crate::verif::spend();
                         break 'inner compaction;
                     } else {
                         COMPACTION_THREAD_NO_COMPACTION.click();
+                        #[cfg(rescrv_blue_verif)]
+                        if crate::verif::single_step() {
+                            return Ok(());
+                        }
                         mutex = self.compact.wait(mutex).unwrap();
                     }
                 }
@@ -1599,6 +1617,37 @@ impl LsmTree {
                 let _ = rename(sst_path, trash_path);
             }
         }
+    }
+
+    /// Verification hook: the files of the current version, level by level, in the order the
+    /// version holds them.
+    #[cfg(rescrv_blue_verif)]
+    pub fn verif_dump(&self) -> Vec<Vec<SstMetadata>> {
+        let version = self.take_snapshot();
+        version
+            .version
+            .levels
+            .iter()
+            .map(|l| l.ssts.iter().map(|x| (**x).clone()).collect())
+            .collect()
+    }
+
+    /// Verification hook: would an ingest wait now; is a compaction selectable now (the
+    /// selection is released again at once); number of compactions in flight.
+    #[cfg(rescrv_blue_verif)]
+    pub fn verif_status(&self) -> (bool, bool, usize) {
+        let _mutex = self.compaction.lock().unwrap();
+        let version = self.take_snapshot();
+        let stall = version.version.should_stall_ingest();
+        let selectable = match version.version.next_compaction() {
+            Some(c) => {
+                let _ = version.version.release_compaction(c);
+                true
+            }
+            None => false,
+        };
+        let ongoing = version.version.ongoing.lock().unwrap().len();
+        (stall, selectable, ongoing)
     }
 
     pub fn get(&self, key: &[u8]) -> Result<Option<Vec<u8>>, SError> {
